@@ -4,7 +4,7 @@ From PG Require Import Common.Strs Units.Model.
 Import ListNotations.
 
 Section P.
-Variable rpow : Q -> Q -> Q.
+Variable rpow : Q -> Q -> option Q.
 Variables extra_space extra_alpha : N -> bool.
 
 Definition parse_class {A} (r : ures A) : Prop :=
@@ -88,7 +88,7 @@ Qed.
    division by zero and the exponent cases named here *)
 Definition eval_class (r : ures qv) : Prop :=
   match r with
-  | UOk _ | URaise UnitsParse | URaise ZeroDiv | URaise TypeErr => True
+  | UOk _ | URaise UnitsParse | URaise ZeroDiv | URaise TypeErr | URaise NoOracle => True
   | URaise _ => False
   end.
 
@@ -115,7 +115,7 @@ Proof.
     unfold q_pow. destruct y as [ev|ev ed]; simpl; auto.
     unfold vpow. destruct (is_int ev).
     + destruct ((Qfloor ev <? 0)%Z && Qeq_bool (qval x) 0); simpl; auto.
-    + destruct (Qle_bool 0 (qval x)); simpl; auto.
+    + destruct (Qle_bool 0 (qval x)); simpl; auto. destruct (rpow (qval x) ev); simpl; auto.
 Qed.
 
 End P.
